@@ -171,7 +171,7 @@ def systematic_groups(rng):
 
 
 def spelling_groups(rng):
-    """Unit written with empty args/annots lists (non-canonical JSON spelling of the same expression)"""
+    """Unit written with empty args/annots lists (the same expression; replays the witness of fixed defect #45 on every run)"""
     import copy
     out = []
     for ep in ('default', 'root', 'x'):
@@ -198,7 +198,7 @@ def malformed_variants(rng, g):
 
 
 def check_has_parameters(ctx, groups):
-    """forge.py has_parameters (JSON-level) vs Ops.has_parameters_json on (entrypoint, forged value, value == {'prim': 'Unit'})"""
+    """forge.py has_parameters vs Ops.has_parameters on (entrypoint, forged value), every distinct parameter seen incl. Unit spellings"""
     from pytezos.operation.forge import has_parameters
     cases, seen = [], set()
     for g in groups:
@@ -210,9 +210,9 @@ def check_has_parameters(ctx, groups):
             if key in seen or len(cases) >= 400:
                 continue
             seen.add(key)
-            lit = 'None' if not p else f"(Some ({chex(p['entrypoint'].encode())}, {chex(mich(p['value']))}, {lib.cbool(p['value'] == {'prim': 'Unit'})}))"
+            lit = 'None' if not p else f"(Some ({chex(p['entrypoint'].encode())}, {chex(mich(p['value']))}))"
             cases.append((lit, lib.cbool(bool(has_parameters(c)))))
-    bad = ctx.coq_mismatches('haspar', IMPORTS, 'has_parameters_json', 'Bool.eqb', 'option (bytes * bytes * bool)', 'bool', cases)
+    bad = ctx.coq_mismatches('haspar', IMPORTS, 'has_parameters', 'Bool.eqb', 'option (bytes * bytes)', 'bool', cases)
     ctx.extra['has_parameters_cases'] = len(cases)
     return [{'table': 'has_parameters', 'disagreements': len(bad), 'first': cases[bad[0]][0][:300]}] if bad else []
 
@@ -315,7 +315,7 @@ def run(ctx: lib.Ctx) -> None:
             if m:
                 groups.append(('overlong-entrypoint', m))
 
-    cases, meta, spelled_obs = [], [], []
+    cases, meta = [], []
     seen = {}
     reported = 0
     for origin, g in groups:
@@ -331,12 +331,8 @@ def run(ctx: lib.Ctx) -> None:
                 ctx.violation(f'forge_operation_group raised {type(raw).__name__}: {raw} on a well-formed group', replay_doc(g, None), found=True)
             continue
         wfx = wf_expected(g)
-        spelled = origin == 'unit-spelling'
-        if not spelled:   # the model takes canonical Micheline (value = forged bytes); spellings go through (B) and has_parameters_json
-            cases.append((c_group(g), f'({chex(raw)}, true, {lib.cbool(wfx)}, {lib.cbool(wfx)})'))
-            meta.append((origin, g, raw))
-        else:
-            spelled_obs.append((g, raw))
+        cases.append((c_group(g), f'({chex(raw)}, true, {lib.cbool(wfx)}, {lib.cbool(wfx)})'))
+        meta.append((origin, g, raw))
         # ---- (B) independent decode + collision check
         why = None
         try:
@@ -359,15 +355,13 @@ def run(ctx: lib.Ctx) -> None:
             h = G.b58o(G.blake2b(raw + sig))
             if h != origin.split(':', 1)[1]:
                 why = f'recorded mainnet operation: hash of forged bytes + signature is {h}, recorded {origin.split(":", 1)[1]}'
-        if why and wfx and spelled and ctx.finding('unit-spelled-with-empty-list') is not None:
-            ctx.known_hit(ctx.finding('unit-spelled-with-empty-list'))
-        elif why and wfx and reported < 3:
+        if why and wfx and reported < 3:
             reported += 1
             ctx.violation(why, replay_doc(g, raw), found=True)
     ctx.extra['recorded_mainnet_groups'] = [n for n, _ in recorded]
 
     fut_mal = pool2.submit(malformed_stream, ctx, [m[2] for m in meta])
-    fut_hp = pool.submit(check_has_parameters, ctx, [g for _, g, _ in meta] + [g for g, _ in spelled_obs])
+    fut_hp = pool.submit(check_has_parameters, ctx, [g for _, g, _ in meta])
     bad = ctx.coq_mismatches('groups', IMPORTS, 'check_group', 'check_eqb', 'group', 'bytes * bool * bool * bool', cases, shard=ctx.n(70, 120))
     fut_mal.result()
     pool2.shutdown()
